@@ -3,7 +3,7 @@
    The writer model (Model/SerExs.v) takes LINE_LENGTH, INDENT, the escape classes, the priority
    attributes, the namespace rank table and ALWAYS_EXPANDED_TAGS from Gen/ExsConsts.v, which is
    re-extracted from capellambse/loader/exs.py on every run. *)
-From Coq Require Import ZArith NArith List Bool Permutation Sorted.
+From Coq Require Import ZArith NArith List Bool Permutation Sorted Lia.
 Import ListNotations.
 From V Require Import Model.Val Model.XmlTree Gen.ExsConsts Model.SerExs Model.XmlRead Proofs.SerExsP Proofs.XmlReadP.
 Open Scope N_scope.
@@ -21,7 +21,7 @@ Proof. exact escape_text_roundtrip. Qed.
 Print Assumptions escape_roundtrip.
 
 (* 1c. the escaped string contains no raw member of the class other than '&' — in particular no
-       '"', no '<', no C0 control, no DEL, no raw newline/tab/CR; and by 1b every '&' in it starts a
+       double quote, no '<', no C0 control, no DEL, no raw newline/tab/CR; and by 1b every '&' in it starts a
        well-formed reference (the strict decoder [unescape] rejects anything else) *)
 Theorem escape_safe : forall s c, In c (escape TEXT_CLASS s) -> in_ranges c TEXT_CLASS && negb (c =? AMP) = false.
 Proof. exact escape_text_safe. Qed.
@@ -113,7 +113,12 @@ Theorem pos_is_column_refuted : forall cfg ll,
 Proof. exact pos_short_expanded. Qed.
 Print Assumptions pos_is_column_refuted.
 Example attr_only_satisfiable : attr_only (RElem [97] [([105;100], [49])] false None [RElem [98] [] false None [] None] None).
-Proof. repeat constructor; cbn; try lia; intuition discriminate. Qed.
+Proof.
+  assert (Hb : attr_only (RElem [98] [] false None [] None)).
+  { apply AO; [repeat constructor | unfold no_nl; cbn; intuition discriminate | constructor | constructor | reflexivity]. }
+  apply AO; [repeat constructor | unfold no_nl; cbn; intuition discriminate | | constructor; [exact Hb | constructor] | reflexivity].
+  constructor; [|constructor]. split; unfold no_nl; cbn; intuition discriminate.
+Qed.
 
 (* ---- 4. canonicality ---------------------------------------------------------------------- *)
 (* Full statement (design 4/C01.4): for every well-formed document d and line length ll,
@@ -122,9 +127,9 @@ Proof. repeat constructor; cbn; try lia; intuition discriminate. Qed.
    semantic Capella element except bodies/languages.  Text, tails and the comments around the
    root are NOT covered by the proof; they are covered by the differential checks only. *)
 Theorem ser_read_roundtrip_partial : forall cfg ll root ind pos r rest,
-  stageA r -> (forall c rest', rest = c :: rest' -> is_xml_ws c = false) ->
+  stageA r ->
   read_elem (fst (lay_elem cfg ll root ind pos r) ++ rest) = Some (decode_tree r, rest).
-Proof. exact XmlReadP.read_lay_elem. Qed.
+Proof. intros. now apply XmlReadP.read_lay_elem. Qed.
 Print Assumptions ser_read_roundtrip_partial.
 
 (* writing what was read gives the same bytes again: for trees whose written values are the
@@ -137,4 +142,10 @@ Theorem ser_canonical_partial : forall cfg ll root ind pos r,
 Proof. exact XmlReadP.write_read_write. Qed.
 Print Assumptions ser_canonical_partial.
 Example stageA_satisfiable : stageA (RElem [97] [([105;100], [49;38;97;109;112;59])] false None [RElem [98] [] false None [] None] None).
-Proof. repeat constructor; cbn; try lia; try intuition discriminate; try (vm_compute; discriminate). Qed.
+Proof.
+  assert (Hn : forall c, name_char c = true -> name_ok [c]) by (intros c H; split; [discriminate | repeat constructor; exact H]).
+  assert (Hb : stageA (RElem [98] [] false None [] None)) by (apply SA; [apply Hn; reflexivity | constructor | constructor]).
+  apply SA; [apply Hn; reflexivity | | constructor; [exact Hb | constructor]].
+  constructor; [|constructor]. split; [split; [discriminate | repeat constructor]|].
+  split; [cbn; intuition discriminate | vm_compute; discriminate].
+Qed.
